@@ -270,7 +270,8 @@ class Interp:
                 self.call_meta.append({
                     'cond': cond0, 'weak': weak0, 'tests': tests0,
                     'caller': self.stack[-2].fn.qualname
-                    if len(self.stack) > 1 else None})
+                    if len(self.stack) > 1 and
+                    self.stack[-2].fn is not None else None})
             return res
         finally:
             self.stack.pop()
@@ -547,17 +548,19 @@ class Interp:
         t = st.target
         cur = self.eval(t, env)
         rhs = self.eval(st.value, env)
-        res = self.np.binop(st.op, cur, rhs, st, inplace=True)
+        res = self.np.binop(st.op, cur, rhs, st, inplace=True, env=env)
         if cur.k in ('arr',) or (cur.k == 'top' and cur.org):
             # in-place: same buffer
             self.effect('array-write', cur, st)
             res = res.copy(org=cur.org)
             if isinstance(t, ast.Name):
                 self.rebind_array(env, t.id, cur, res)
+                self.alias_rows(env, cur, res)
             elif isinstance(t, ast.Subscript):
                 base = self.eval(t.value, env)
                 if base.k in ('list', 'dict'):
                     self.store_subscript(t, res, env, st, same_object=True)
+                    self.alias_rows(env, cur, res)
                 elif base.k == 'arr' and isinstance(t.value, ast.Name):
                     # writing a region of base: taint / orth of base change
                     nb = base.copy(orth=None, taint=base.taint | res.taint,
@@ -605,6 +608,48 @@ class Interp:
             if n != name and isinstance(v, AV):
                 if v is old:
                     env[n] = new
+                else:
+                    walk(v, 0)
+
+    def alias_rows(self, env, cur, res):
+        """An in-place change of ``cur`` = view ``M[i]`` changes every other
+        view of the same row of the same matrix object (must alias: same
+        constant i) and may change views with an unknown index."""
+        if not (isinstance(cur.rel, tuple) and cur.rel[0] == 'row'):
+            return
+        base, idx = cur.rel[1], cur.rel[2]
+        ic = idx.c if idx.has_const() else None
+
+        def fix(x):
+            if not isinstance(x, AV) or x is cur or x is res or \
+                    x.k != 'arr' or not (isinstance(x.rel, tuple) and
+                                         x.rel[0] == 'row' and
+                                         x.rel[1] is base):
+                return x
+            jc = x.rel[2].c if x.rel[2].has_const() else None
+            if ic is not None and jc is not None:
+                if ic != jc:
+                    return x
+                return res.copy(rel=x.rel, org=x.org)
+            return x.copy(degq=True, lg=None, orth=None, deg=None)
+        seen = set()
+
+        def walk(v, depth):
+            if not isinstance(v, AV) or id(v) in seen or depth > 3:
+                return
+            seen.add(id(v))
+            if v.k == 'list' and v.items is not None:
+                for i_, x in enumerate(v.items):
+                    nx = fix(x)
+                    if nx is not x:
+                        v.items[i_] = nx
+                    else:
+                        walk(x, depth + 1)
+        for n, v in list(env.items()):
+            if isinstance(v, AV):
+                nv = fix(v)
+                if nv is not v:
+                    env[n] = nv
                 else:
                     walk(v, 0)
 
@@ -806,6 +851,42 @@ class Interp:
         facts = tuple(env.get('$facts', ()))
         for p in parts:
             facts = facts + ((model.norm_src(mod, p), pol),)
+            # W = abs(B):  a fact about W[idx] is a fact about abs(B[idx])
+            # (elementwise: np.abs(B)[idx] == np.abs(B[idx]))
+            import copy as _copy
+            p2 = None
+            for sub_ in ast.walk(p):
+                if isinstance(sub_, ast.Subscript) and \
+                        isinstance(sub_.value, ast.Name):
+                    wv = env.get(sub_.value.id)
+                    if isinstance(wv, AV) and wv.k == 'arr' and \
+                            isinstance(wv.rel, tuple) and \
+                            wv.rel[0] == 'absof':
+                        src_nm = [nm for nm, vv in env.items()
+                                  if vv is wv.rel[1] and
+                                  not nm.startswith('$')]
+                        if src_nm:
+                            class _R(ast.NodeTransformer):
+                                def visit_Subscript(self_, n_):
+                                    if isinstance(n_.value, ast.Name) and \
+                                            n_.value.id == sub_.value.id:
+                                        inner = ast.Subscript(
+                                            value=ast.Name(id=src_nm[0],
+                                                           ctx=ast.Load()),
+                                            slice=n_.slice, ctx=ast.Load())
+                                        return ast.Call(
+                                            func=ast.Name(id='abs',
+                                                          ctx=ast.Load()),
+                                            args=[inner], keywords=[])
+                                    return n_
+                            p2 = _R().visit(_copy.deepcopy(p))
+                            break
+            if p2 is not None:
+                try:
+                    facts = facts + ((ast.unparse(ast.fix_missing_locations(
+                        p2)), pol),)
+                except Exception:
+                    pass
             # the guarded scalar keeps the fact when it is passed on to a
             # helper:  |x| > c  (or  not |x| <= c)  marks the VALUE of x
             from .npmodel import _guards
@@ -1214,9 +1295,35 @@ class Interp:
                               'list index %d out of range (len %d)'
                               % (i, len(base.items)))
             elif base.items is not None and idx.k == 'slice':
-                base.items = None
-                base.elem = v.elem if v.k in ('list', 'tuple') and v.elem \
-                    else TOP()
+                lo_, hi_, st_ = idx.items
+                n_ = len(base.items)
+
+                def _c(x, dflt):
+                    if x is None or x.k == 'none':
+                        return dflt
+                    return x.c if x.k == 'int' and x.has_const() else None
+                lo_c, hi_c = _c(lo_, 0), _c(hi_, n_)
+                if (st_ is None or st_.k == 'none') and lo_c is not None \
+                        and hi_c is not None and \
+                        v.k in ('list', 'tuple') and v.items is not None:
+                    lo_c = max(lo_c + n_, 0) if lo_c < 0 else min(lo_c, n_)
+                    hi_c = max(hi_c + n_, 0) if hi_c < 0 else min(hi_c, n_)
+                    hi_c = max(hi_c, lo_c)
+                    new_items = list(base.items[:lo_c]) + list(v.items) + \
+                        list(base.items[hi_c:])
+                    if self.weak > 0:
+                        if len(new_items) == n_:
+                            base.items = [join(a, b) for a, b in
+                                          zip(base.items, new_items)]
+                        else:
+                            base.items = None
+                            base.elem = TOP()
+                    else:
+                        base.items = new_items
+                else:
+                    base.items = None
+                    base.elem = v.elem if v.k in ('list', 'tuple') and \
+                        v.elem else TOP()
             elif base.items is not None:
                 base.items = [join(x, v) for x in base.items]
             else:
@@ -1468,6 +1575,15 @@ class Interp:
                 g = mod.globals[name]
                 if isinstance(g, ast.Constant):
                     return from_const(g.value)
+                # a module-level tuple / list of names and literals (e.g. the
+                # type tuple of an isinstance test): evaluated in place
+                if isinstance(g, (ast.Tuple, ast.List)) and all(
+                        isinstance(x, (ast.Name, ast.Attribute, ast.Constant))
+                        for x in g.elts) and len(g.elts) <= 16:
+                    try:
+                        return self.eval(g, {})
+                    except Exception:
+                        return TOP('global')
                 return TOP('global')
         if name in BUILTINS:
             return AV('builtin', ext=name)
